@@ -269,6 +269,14 @@ func runHistory(k *vf.Case) {
 	prev := runtime.GOMAXPROCS(procs)
 	defer runtime.GOMAXPROCS(prev)
 	ctx := context.Background()
+	// the experimental cardinality limit: unset, or one of the spellings that mean "no limit" (negative values
+	// are documented to disable it, unparsable ones are ignored) - every attribute set keeps its own sums
+	if r.Chance(1, 4) {
+		v := vf.Pick(r, []string{"-1", "-100", "0", "abc"})
+		os.Setenv("OTEL_GO_X_CARDINALITY_LIMIT", v)
+		defer os.Unsetenv("OTEL_GO_X_CARDINALITY_LIMIT")
+		k.C.Count("histories_with_cardinality_limit_spelled_as_no_limit", 1)
+	}
 	sameNameMode = r.Chance(1, 6)
 	if sameNameMode {
 		k.C.Count("histories_with_same_name_instruments", 1)
